@@ -207,7 +207,10 @@ static void *forced_worker (void *arg) { run_request (arg); return NULL; }
 
 static int g_bg_stop = 0;
 #define BG_STOP() __atomic_load_n (&g_bg_stop, __ATOMIC_ACQUIRE)
-static void *bg_purger (void *arg) { while (!BG_STOP ()) { replay_purge (); sched_yield (); } return NULL; }
+/* (the purger holds the replay-table mutex for a whole scan of the 65537-slot table - long under ThreadSanitizer - and glibc mutexes
+ * are not fair: re-taking it at once starved the request threads for minutes on some runs, a wedge of the harness' own making;
+ * a short pause between scans lets the waiters in, the real daemon purges once a minute) */
+static void *bg_purger (void *arg) { while (!BG_STOP ()) { replay_purge (); usleep (300); } return NULL; }
 static void *bg_swapper (void *arg) {
     while (!BG_STOP ()) { pthread_mutex_lock (&g_gid_lock); g_gidver++; pthread_mutex_unlock (&g_gid_lock); sched_yield (); }
     return NULL;
